@@ -284,7 +284,8 @@ func sameValue(a, b any) bool {
 var regFieldTypes = []modbus.FieldType{modbus.FieldTypeBit, modbus.FieldTypeByte, modbus.FieldTypeUint8, modbus.FieldTypeInt8, modbus.FieldTypeUint16, modbus.FieldTypeInt16,
 	modbus.FieldTypeUint32, modbus.FieldTypeInt32, modbus.FieldTypeUint64, modbus.FieldTypeInt64, modbus.FieldTypeFloat32, modbus.FieldTypeFloat64, modbus.FieldTypeString}
 
-var byteOrders = []packet.ByteOrder{0, packet.BigEndianHighWordFirst, packet.BigEndianLowWordFirst, packet.LittleEndianHighWordFirst, packet.LittleEndianLowWordFirst, packet.BigEndian, packet.LittleEndian}
+// byte orders a field or a view may carry: the four named combinations, an endianness alone, and a word order alone (each flag means what it says; what is not said is the default)
+var byteOrders = []packet.ByteOrder{0, packet.BigEndianHighWordFirst, packet.BigEndianLowWordFirst, packet.LittleEndianHighWordFirst, packet.LittleEndianLowWordFirst, packet.BigEndian, packet.LittleEndian, packet.LowWordFirst, packet.HighWordFirst}
 
 func fieldTypeName(t modbus.FieldType) string {
 	return [...]string{"?", "bit", "byte", "uint8", "int8", "uint16", "int16", "uint32", "int32", "uint64", "int64", "float32", "float64", "string", "coil"}[t]
